@@ -69,6 +69,9 @@ func (w *Worker) call(st *State, f *Frame, x *ssa.Call) bool {
 	if fv.Fn.Origin() != nil {
 		name = fv.Fn.Origin().String()
 	}
+	if st.sub && isNdCall(name) {
+		panic(cutErr{"nd call inside merged callee"})
+	}
 	if h, ok := intrinsics[name]; ok {
 		w.stubs[name] = true
 		r, done := h(w, st, f, x, fv, args)
@@ -94,6 +97,12 @@ func (w *Worker) call(st *State, f *Frame, x *ssa.Call) bool {
 	}
 	if w.e.cfg.Concrete && (!w.e.initAllowed(fv.Fn) || initSkip[name]) {
 		return w.opaqueResult(f, x, "not executed during init: "+name)
+	}
+	if !w.e.cfg.Concrete && !w.e.noMerging && mergeCandidate(fv.Fn) {
+		if v, ok := w.tryMerge(st, fv, args); ok {
+			f.set(x, v)
+			return true
+		}
 	}
 	w.pushCall(st, fv, args, retNormal, 0)
 	return false
@@ -571,6 +580,21 @@ func init() {
 		o := st.heap.alloc(16, nil, "fmt.Errorf")
 		return ret(IfaceV{T: fmtErrorType(w.e.prog), D: Ptr{Obj: o.ID}})
 	})
+	// error constructors whose only job is formatting a position and message: a fresh
+	// non-nil error of the proto error type with opaque text (formatting is not the subject)
+	protoErr := func(w *Worker, st *State, f *Frame, x *ssa.Call, fv FuncV, a []Value) (Value, bool) {
+		p := w.e.prog.ImportedPackage("google.golang.org/protobuf/internal/errors")
+		if p == nil {
+			panic(cutErr{"internal/errors not loaded"})
+		}
+		t := p.Type("prefixError").Type()
+		o := st.heap.alloc(sizeof(t), t, "syntax error")
+		st.storeAt(o.ID, 0, t, Opaque{"error text"})
+		return ret(IfaceV{T: types.NewPointer(t), D: Ptr{Obj: o.ID}})
+	}
+	regIntrinsic("(*google.golang.org/protobuf/internal/encoding/json.Decoder).newSyntaxError", protoErr)
+	regIntrinsic("(*google.golang.org/protobuf/internal/encoding/text.Decoder).newSyntaxError", protoErr)
+	regIntrinsic("(*regexp.Regexp).Find", opaqueStr)
 	regIntrinsic("os.Getenv", func(w *Worker, st *State, f *Frame, x *ssa.Call, fv FuncV, a []Value) (Value, bool) {
 		return ret(StrV{})
 	})
